@@ -19,7 +19,11 @@ import (
 	"encoding/hex"
 	"encoding/json"
 	"fmt"
+	"go/ast"
+	"go/parser"
+	"go/token"
 	"os"
+	"os/exec"
 	"path/filepath"
 	"sort"
 	"strings"
@@ -291,6 +295,10 @@ func TestC15(t *testing.T) {
 	}
 	st.Extra["committed_side_uses_embedded_files"] = embedded
 
+	// (a') every call of every accessor of the tree's own package contracts
+	// returns the committed artifacts, whatever earlier callers did to theirs
+	c15Probe(t, st, w)
+
 	// (b) differential execution
 	sc := c15Deploy(t, "committed", exC)
 	sf := c15Deploy(t, "fresh", exF)
@@ -410,4 +418,140 @@ func TestC15(t *testing.T) {
 	st.Extra["deploy_edges"] = w.Params.Edges
 	st.Extra["fsContracts"] = w.Params.FsContracts
 	st.Write()
+}
+
+// c15ProbeReport is what testdata/c15probe prints.
+type c15ProbeReport struct {
+	Accessors   []string `json:"accessors"`
+	Calls       int      `json:"calls"`
+	Comparisons int      `json:"comparisons"`
+	Problems    []struct {
+		Accessor string `json:"accessor"`
+		Call     string `json:"call"`
+		After    string `json:"after"`
+		What     string `json:"what"`
+	} `json:"problems"`
+}
+
+// c15Accessors lists, by go/ast, the exported functions of package contracts
+// of the tree under test: those with the signature func() ([]Contract, error)
+// (they hand out the embedded artifacts and are probed) and the others.
+func c15Accessors(dir string) (probed, other []string, err error) {
+	files, err := filepath.Glob(filepath.Join(dir, "*.go"))
+	if err != nil {
+		return nil, nil, err
+	}
+	sort.Strings(files)
+	fset := token.NewFileSet()
+	for _, fn := range files {
+		if strings.HasSuffix(fn, "_test.go") {
+			continue
+		}
+		f, err := parser.ParseFile(fset, fn, nil, 0)
+		if err != nil {
+			return nil, nil, err
+		}
+		for _, d := range f.Decls {
+			fd, ok := d.(*ast.FuncDecl)
+			if !ok || fd.Recv != nil || !fd.Name.IsExported() {
+				continue
+			}
+			ft := fd.Type
+			isAcc := (ft.Params == nil || len(ft.Params.List) == 0) && ft.Results != nil && len(ft.Results.List) == 2
+			if isAcc {
+				at, ok := ft.Results.List[0].Type.(*ast.ArrayType)
+				id, ok2 := ft.Results.List[1].Type.(*ast.Ident)
+				isAcc = ok && at.Len == nil && ok2 && id.Name == "error"
+				if isAcc {
+					el, ok := at.Elt.(*ast.Ident)
+					isAcc = ok && el.Name == "Contract"
+				}
+			}
+			if isAcc {
+				probed = append(probed, fd.Name.Name)
+			} else {
+				other = append(other, fd.Name.Name)
+			}
+		}
+	}
+	return probed, other, nil
+}
+
+// c15Probe compiles testdata/c15probe in a scratch module whose replace
+// directive points at the tree under test and runs it: repeated and
+// concurrent calls of GetFS / GetMain (and of any other accessor of that
+// shape), with every reachable part of each result mutated between calls.
+func c15Probe(t *testing.T, st *Stats, w *c15lib.World) {
+	abs, err := filepath.Abs(RepoDir)
+	require.NoError(t, err)
+	probed, other, err := c15Accessors(filepath.Join(abs, "contracts"))
+	require.NoError(t, err, "reading package contracts")
+	st.Extra["probed_accessors"] = probed
+	st.Extra["exported_functions_not_probed"] = other
+	if len(probed) == 0 {
+		st.AddViolation("package contracts exports no func() ([]Contract, error): GetFS/GetMain are gone", other)
+		return
+	}
+	tmp := t.TempDir()
+	src, err := os.ReadFile(filepath.Join(envOr("VERIF_HARNESS", "/verif/harness"), "testdata", "c15probe", "main.go"))
+	require.NoError(t, err)
+	require.NoError(t, os.WriteFile(filepath.Join(tmp, "main.go"), src, 0o644))
+	var tbl []string
+	for _, a := range probed {
+		tbl = append(tbl, fmt.Sprintf("%q: contracts.%s", a, a))
+	}
+	gen := "package main\n\nimport \"github.com/nspcc-dev/neofs-contract/contracts\"\n\nvar accessors = map[string]func() ([]contracts.Contract, error){" + strings.Join(tbl, ", ") + "}\n"
+	require.NoError(t, os.WriteFile(filepath.Join(tmp, "accessors_gen.go"), []byte(gen), 0o644))
+	mod := "module c15probe\n\ngo 1.22\n\nrequire github.com/nspcc-dev/neofs-contract v0.0.0\n\nreplace github.com/nspcc-dev/neofs-contract => " + abs + "\n"
+	require.NoError(t, os.WriteFile(filepath.Join(tmp, "go.mod"), []byte(mod), 0o644))
+	sum, err := os.ReadFile(filepath.Join(abs, "go.sum"))
+	require.NoError(t, err)
+	require.NoError(t, os.WriteFile(filepath.Join(tmp, "go.sum"), sum, 0o644))
+
+	orders := "GetFS=" + strings.Join(w.Params.FsContracts, ",") + ";GetMain=" + strings.Join(w.Params.MainContracts, ",")
+	cmd := exec.Command("go", "run", ".", "-repo", abs, "-orders", orders)
+	cmd.Dir = tmp
+	cmd.Env = append(os.Environ(), "GOFLAGS=-mod=mod", "GOPROXY=off", "GOSUMDB=off", "GOTOOLCHAIN=local", "CGO_ENABLED=0")
+	var stdout, stderr bytes.Buffer
+	cmd.Stdout, cmd.Stderr = &stdout, &stderr
+	if err := cmd.Run(); err != nil {
+		t.Errorf("c15probe against %s: %v\n%s", abs, err, stderr.String())
+		return
+	}
+	var rep c15ProbeReport
+	out := stdout.Bytes()
+	if i := bytes.IndexByte(out, '{'); i >= 0 {
+		out = out[i:]
+	}
+	require.NoError(t, json.Unmarshal(out, &rep), "c15probe output: %s", stdout.String())
+	st.Histories += rep.Calls
+	st.Evaluations += rep.Comparisons
+	st.OpHistogram["accessor_call(repeated, after mutation, concurrent)"] += rep.Calls
+	st.OpHistogram["accessor_result_vs_disk_and_first_call"] += rep.Comparisons
+	st.OutcomeHistogram["accessor_problems"] += len(rep.Problems)
+	// one violation per (accessor, call), carrying all its findings
+	type key struct{ a, c string }
+	seen := map[key]bool{}
+	n := 0
+	for _, p := range rep.Problems {
+		k := key{p.Accessor, p.Call}
+		if seen[k] || n >= 6 {
+			continue
+		}
+		seen[k] = true
+		n++
+		var all []string
+		for _, q := range rep.Problems {
+			if q.Accessor == p.Accessor && q.Call == p.Call {
+				all = append(all, q.What)
+			}
+		}
+		st.AddViolation(fmt.Sprintf("contracts.%s(), %s of one process, after %s: %s (%d findings for this call)", p.Accessor, p.Call, p.After, p.What, len(all)),
+			map[string]any{"accessor": p.Accessor, "call": p.Call, "after": p.After, "findings": all,
+				"sequence": "call; compare with contracts/*/{contract.nef,manifest.json}; mutate the returned value in place; call again"})
+	}
+	if len(rep.Problems) == 0 {
+		st.Samples = append(st.Samples, map[string]any{"probe": "contracts." + strings.Join(rep.Accessors, "/") + " called repeatedly with results mutated in between and from 8 goroutines",
+			"calls": rep.Calls, "comparisons_with_disk_and_first_call": rep.Comparisons, "problems": 0})
+	}
 }
